@@ -116,7 +116,7 @@ theorem backed_init : Backed init.bal := ⟨by simp [init, Keys], by simp [init,
 
 /-- a change of the bank store at an account other than the erc20 module account -/
 theorem backed_bank_other (b : Bal) (bank' : Store (Addr × Denom)) (h : Backed b) (hk : Keys bank')
-    (hsame : ∀ d, sget bank' (erc20Mod, d) = sget b.bank (erc20Mod, d)) : Backed { b with bank := bank' } :=
+    (hsame : ∀ t, sget bank' (erc20Mod, denomOfE t) = sget b.bank (erc20Mod, denomOfE t)) : Backed { b with bank := bank' } :=
   ⟨hk, h.ke, fun t => by rw [hsame]; exact h.eq t⟩
 
 theorem backed_mint (b : Bal) (a : Addr) (d : Denom) (amt : Nat) (h : Backed b) (ha : a ≠ erc20Mod) :
@@ -131,8 +131,17 @@ theorem backed_move (b : Bal) (d : Denom) (src dst : Addr) (amt : Nat) (h : Back
   intro d'
   simp [get_add, get_sub, h1, h2]
 
-theorem backed_marker (b : Bal) (m : Nat) (c : Option (Option Ch × Nat)) (h : Backed b) :
+theorem backed_marker (b : Bal) (m : Nat) (c : Option CallerId) (h : Backed b) :
     Backed { b with marker := m, caller := c } := ⟨h.kb, h.ke, h.eq⟩
+
+theorem backed_switch (b : Bal) (off : List ETok) (p : Bool) (h : Backed b) :
+    Backed { b with off := off, paused := p } := ⟨h.kb, h.ke, h.eq⟩
+
+/-- FX backs no ERC-20 token: moving it between any two accounts keeps the invariant -/
+theorem backed_move_fx (b : Bal) (src dst : Addr) (amt : Nat) (h : Backed b) : Backed (b.move .fx src dst amt) := by
+  refine backed_bank_other b _ h (keys_sadd _ _ _ (keys_ssub _ _ _ h.kb)) ?_
+  intro t
+  cases t <;> simp [denomOfE, get_add, get_sub]
 
 theorem backed_convertCoin (b b' : Bal) (d : Denom) (holder receiver : Addr) (amt : Nat) (h : Backed b)
     (hh : holder ≠ erc20Mod) (hc : convertCoin b d holder receiver amt = some b') : Backed b' := by
@@ -141,6 +150,8 @@ theorem backed_convertCoin (b b' : Bal) (d : Denom) (holder receiver : Addr) (am
   | none => simp [hp] at hc
   | some t =>
     simp only [hp] at hc
+    split at hc
+    · cases hc
     split at hc
     · cases hc
     · cases hc
@@ -241,6 +252,11 @@ theorem backed_memoStep (cfg : Cfg) (b : Bal) (src dst : Ch) (m : Memo) (snd : N
   · exact h
   · exact backed_marker b _ _ h
   · exact h
+  · split
+    · split
+      · exact h
+      · exact backed_move_fx b _ _ _ h
+    · exact h
 
 theorem backed_recvBal (cfg : Cfg) (vmeta : List Ch) (b : Bal) (src l : Ch) (t : Tok) (k : RKind) (to : Addr) (amt : Nat)
     (m : Memo) (snd : Nat) (h : Backed b) (hto : userAddr to) (hl : l < 1000) :
@@ -361,6 +377,12 @@ theorem backed_step (cfg : Cfg) (s : State) (op : Op) (hu : userOnly op) (h : Ba
   | chan l r => exact ⟨h, hc⟩
   | vmeta l => exact ⟨h, hc⟩
   | migrate => exact ⟨h, hc⟩
+  | toggle t l =>
+    simp only [stepWith]
+    split
+    · exact ⟨h, hc⟩
+    · exact ⟨backed_switch s.bal _ _ h, hc⟩
+  | pause => exact ⟨backed_switch s.bal _ _ h, hc⟩
   | seqset l n =>
     simp only [stepWith]
     split
@@ -414,21 +436,19 @@ theorem backed_step (cfg : Cfg) (s : State) (op : Op) (hu : userOnly op) (h : Ba
         refine ⟨?_, by intro x hx; rw [hcom] at hx; exact hc x (mem_dropCommit.1 hx).1⟩
         have hrefund : ∀ b, refundState cfg s l seq p b = some s' → Backed s'.bal := by
           intro b hr
-          unfold refundState at hr
-          cases ha : refundApp s.bal l p with
-          | none => simp [ha] at hr
-          | some b1 =>
-            have hb1 := backed_refundApp s.bal b1 l p h hp hu ha
-            simp only [ha] at hr
-            split at hr
-            · cases hh : refundHook cfg s.ctl.vmeta b1 l p (refundForm cfg s.ctl (l, seq) p) with
-              | none => simp [hh] at hr
-              | some b2 =>
-                simp only [hh, Option.some.injEq] at hr
-                subst hr
-                exact backed_refundHook cfg _ b1 b2 l p _ hb1 hp hh
-            · simp only [Option.some.injEq] at hr
-              subst hr; exact hb1
+          cases b with
+          | true =>
+            obtain ⟨b1, ha, hh | hh⟩ := refundState_cases cfg s s' l seq p hr
+            · obtain ⟨b2, hh2, hs'⟩ := hh
+              subst hs'
+              exact backed_refundHook cfg _ b1 b2 l p _ (backed_refundApp s.bal b1 l p h hp hu ha) hp hh2
+            · obtain ⟨_, _, hs'⟩ := hh
+              subst hs'
+              exact backed_refundApp s.bal b1 l p h hp hu ha
+          | false =>
+            obtain ⟨b1, ha, hs'⟩ := refundState_false cfg s s' l seq p hr
+            subst hs'
+            exact backed_refundApp s.bal b1 l p h hp hu ha
         cases mode with
         | ackOk => simp only [settleState, Option.some.injEq] at hst; subst hst; exact h
         | ackErr => exact hrefund _ hst
